@@ -800,6 +800,7 @@ class C11(Prop):
 class E2EProp(Prop):
     """properties of the client binaries: theorems over the loop / handler model + end-to-end scenarios on the real binaries"""
     stateful = True
+    e2e = True
     level = "proof"
     technique = ("Lean 4 theorems over a model of the client's loop / handlers + end-to-end execution of the real binaries (loopback TCP feed with scripted "
                  "segmentation and gaps, pty with scripted keys / mouse / resizes, reconstructed screen)")
@@ -840,6 +841,28 @@ class C16(E2EProp):
         import clients
         clients.check_1090(rng, tier, report)
         clients.check_radar_stream(rng, tier, report)
+
+class C17(E2EProp):
+    id = "C17"; module = "Adsb.Theorems.C17"; design_ref = "5/C17"
+    deps = []
+    rule = ("radar under a pty: random histories of keys (F1-F5, Tab, arrows, Enter, l/i/h/t/n/+/-/other), SGR mouse events (clicks on and off the tab bar, "
+            "drags, releases, scrolls, other buttons, coordinates past the screen edge), resizes (1x1 .. 60x5 .. 7x200) and traffic, with 0 / 1 / 3 / 5 tracked "
+            "aircraft (with and without a position), aircraft expiring under a selection (--filter-time=3), touchscreen on/off, --disable-* flags, --locations; "
+            "events spaced one per loop iteration and, separately, 300 events in one write; at every 4th event of the readable-size histories the screen "
+            "(tab, CUSTOM marker, view centre in the title, selected row, table rows) is compared with the Lean handler model run on the same history; every "
+            "history ends with q or Ctrl-C: exit status 0, quit message, termios cooked again, mouse-reporting off sequences after the last on, cursor shown; "
+            "quit while waiting for the connection; 22 invalid command lines -> exit status 2 with clap's error; extreme legal values; non-trivial = distinct scenarios")
+    claim = ("no history of events makes the handlers / draw clamp panic, the quit flag is set only by q / Ctrl-C, every exit path restores the terminal "
+             "(theorems over the handler / loop model); the model's state agrees with the screen of the real binary on scripted histories; liveness, exit status "
+             "and terminal restoration observed on the real binary")
+    note = ("partial: ratatui's layout and widget code and crossterm's input parser are exercised (sizes down to 1x1), not modelled; the theorems cover "
+            "handle_keyevent, handle_mouseevent, the selection clamp, the loop's quit logic and the exit paths of main")
+    def scenarios(self, rng, tier, report):
+        import ui
+        ui.check_cli(rng, tier, report)
+        ui.check_waiting(rng, tier, report)
+        ui.check_histories(rng, tier, report)
+        ui.check_batched(rng, tier, report)
 
 class C19(Prop):
     id = "C19"; module = "Adsb.Theorems.C19"; design_ref = "5/C19"
@@ -943,5 +966,5 @@ class C01(Prop):
     def nontrivial(self, op, line): return line.startswith(("OK", "TXT", "VEL some", "POS some", "ADDED"))
 
 ALL = {}
-for c in [C01, C02, C03, C04, C05, C06, C07, C08, C09, C10, C11, C12, C13, C14, C15, C16, C19, C20]:
+for c in [C01, C02, C03, C04, C05, C06, C07, C08, C09, C10, C11, C12, C13, C14, C15, C16, C17, C19, C20]:
     ALL[c.id] = c
